@@ -106,6 +106,30 @@ theorem block_sde {t : ClassFacts} {o : Option Bytes} {q : Pool}
       (fun q' hq => ⟨hn, getUtf8_of hq.good (a.mono hq.le), hok s hf, hl⟩)
       (fun st hst => by simp [SClassAttr.apply, hst, hf])
 
+theorem block_annos {o : Option Bytes} {q : Pool} (visible : Bool) {as : List Annotation}
+    (c : (as = [] ∧ o = none) ∨
+      ∃ sas : List SAnno, Present o q (if visible then sRVA else sRIA) (encAnnos sas) ∧ sas.map SAnno.fact = as ∧
+        sas.length < 65536 ∧ (encAnnos sas).length < 4294967296 ∧ ∀ sa ∈ sas, Sound q (fun rp => sa.Ok rp)) :
+    Block o q (fun _ => True)
+      (fun c => if visible then { c with rva := c.rva ++ as } else { c with ria := c.ria ++ as }) := by
+  rcases c with ⟨rfl, rfl⟩ | ⟨sas, ⟨nc, rfl, hn, a⟩, hm, hl, hb, hs⟩
+  · exact block_absent (fun c _ => by cases visible <;> simp)
+  · exact block_present (.annotations nc visible sas)
+      (fun q' hq => ⟨hn, getUtf8_of hq.good (a.mono hq.le), hl, fun sa hsa => hs sa hsa q' hq, hb⟩)
+      (fun st _ => by cases visible <;> simp [SClassAttr.apply, hm])
+
+theorem block_typeAnnos {o : Option Bytes} {q : Pool} (visible : Bool) {as : List TypeAnno}
+    (c : (as = [] ∧ o = none) ∨
+      ∃ sas : List STypeAnno, Present o q (if visible then sRVTA else sRITA) (encTypeAnnos sas) ∧ sas.map STypeAnno.fact = as ∧
+        sas.length < 65536 ∧ (encTypeAnnos sas).length < 4294967296 ∧ ∀ sa ∈ sas, Sound q (fun rp => sa.Legal rp .cls)) :
+    Block o q (fun _ => True)
+      (fun c => if visible then { c with rvta := c.rvta ++ as } else { c with rita := c.rita ++ as }) := by
+  rcases c with ⟨rfl, rfl⟩ | ⟨sas, ⟨nc, rfl, hn, a⟩, hm, hl, hb, hs⟩
+  · exact block_absent (fun c _ => by cases visible <;> simp)
+  · exact block_present (.typeAnnotations nc visible sas)
+      (fun q' hq => ⟨hn, getUtf8_of hq.good (a.mono hq.le), hl, fun sa hsa => hs sa hsa q' hq, hb⟩)
+      (fun st _ => by cases visible <;> simp [SClassAttr.apply, hm])
+
 theorem block_packages {t : ClassFacts} {o : Option Bytes} {q : Pool}
     (c : (t.modulePackages = none ∧ o = none) ∨
       (∃ (ps : List JStr) (ls : List (Nat × JStr)), t.modulePackages = some ps ∧ Present o q sModulePackages (encRefs ls) ∧
